@@ -127,7 +127,12 @@ class Rig:
 
         def set_state(state_class, *a: Any, **k: Any):  # type: ignore[no-untyped-def]
             self.state_path.append(state_class.__name__[:5] + ("!" if k.get("expired") else "") + ("t" if k.get("timed_out") else ""))
-            return orig_set_state(state_class, *a, **k)
+            ret = orig_set_state(state_class, *a, **k)
+            pend = getattr(self, "pending_at_timeout", None)
+            if k.get("timed_out") and pend is not None:
+                self.pending_at_timeout = None
+                self._echo_then_reply(pend[0], pend[1], pend[2], True)
+            return ret
 
         ctx.set_state = set_state  # type: ignore[method-assign]
         orig_get = ctx._que.get_nowait
@@ -138,6 +143,10 @@ class Rig:
             if not entry[4].done():
                 self.active = who
                 self.inst = self.seq + 1  # the dequeue event about to be logged names this command instance
+                # the moment the caller is given its result or error: a done-callback on the caller's own
+                # future runs before anything scheduled after the future was completed (the awaiting
+                # coroutine itself only resumes a few loop iterations later)
+                entry[4].add_done_callback(lambda f, who=who: self.log("answered", caller=who))
             self.log("dequeue", frame=str(entry[2]), caller=who, fut_done=entry[4].done())
             return entry
 
@@ -194,6 +203,8 @@ class Rig:
         if spec is None:
             return None
         kind, val = spec[0], spec[1]
+        if kind == "at_timeout":  # delivered from the set_state tap, in the iteration the echo timer expires
+            return None
         return val if kind == "abs" else timer + val
 
     async def on_write(self, transport: ScriptedTransport, frame: str) -> None:
@@ -230,6 +241,15 @@ class Rig:
         d_echo = self._delay(step.get("echo", ["abs", 0.004]), t_echo)
         fr = caller_frames(c)
         reply_spec = step.get("reply", ["abs", 0.02])
+        self.pending_at_timeout = None
+        if (step.get("echo") or [None])[0] == "at_timeout":
+            # The serial read callback and the echo timer fall into the same loop iteration: the packet is
+            # queued (call_soon_threadsafe) before the timer's deferred retransmit, so the protocol sees the
+            # echo after the state was marked timed-out and before the retransmission is attempted.
+            self.pending_at_timeout = (echo, fr["reply"], reply_spec)
+            for off, f in step.get("foreign", []):
+                self._at(off, self.deliver, f, "foreign")
+            return
         if d_echo is not None:
             for n in range(1 + step.get("echo_dup", 0)):
                 self._at(d_echo + n * 0.003, self._echo_then_reply, echo, fr["reply"], reply_spec, n == 0, late_armed=step.get("late", False))
@@ -494,10 +514,15 @@ def oracle_c08(ep: dict[str, Any], h: dict[str, Any]) -> list[tuple[str, str, An
         if len(mine) > limit:
             out.append(("C08|ledger|too-many-transmissions", "a command was transmitted more than 1 + min(max_retries, 3) times", {"caller": n, "transmissions": len(mine), "limit": limit}))
         # (2) nothing after the caller has its answer
-        if ret is not None:
-            late = [w for w in mine if w["seq"] > ret["seq"]]
+        ans = next((e for e in evs if e["ev"] == "answered" and e["caller"] == n), None)
+        if ans is not None and (ret is None or ans["seq"] < ret["seq"]):
+            ret_mark = ans
+        else:
+            ret_mark = ret
+        if ret_mark is not None:
+            late = [w for w in mine if w["seq"] > ret_mark["seq"]]
             if late:
-                out.append(("C08|ledger|transmitted-after-completion", "a command was transmitted after its caller had been given a result or an error", {"caller": n, "return_vt": ret["vt"], "late_writes": [w["vt"] for w in late]}))
+                out.append(("C08|ledger|transmitted-after-completion", "a command was transmitted after its caller had been given a result or an error", {"caller": n, "answered_vt": ret_mark["vt"], "late_writes": [w["vt"] for w in late]}))
         if not mine or call is None:
             continue
         # which attempts were unanswered (no echo delivered before the next attempt)?
@@ -598,7 +623,7 @@ def oracle_c09(ep: dict[str, Any], h: dict[str, Any]) -> list[tuple[str, str, An
 
 # ======================================================================== episode generators
 TIMEOUTS = (0.3, 0.5, 1, 1.5, 3.5, 7.5, 20, 25)
-ECHO_ALPHABET = (None, ["abs", 0.004], ["T", -EPS], ["T", 0.0], ["T", EPS], ["abs", 0.25])
+ECHO_ALPHABET = (None, ["abs", 0.004], ["T", -EPS], ["T", 0.0], ["T", EPS], ["abs", 0.25], ["at_timeout", 0])
 REPLY_ALPHABET = (None, ["abs", 0.02], ["before", 0], ["T", -EPS], ["T", 0.0], ["T", EPS])
 RQ_KINDS = ("RQ30C9", "RQ2309", "RQ000A", "RQ0004", "RQ0006", "RQ0418")
 ALL_KINDS = tuple(KINDS)
@@ -621,6 +646,8 @@ def near_miss_frames(c: dict[str, Any], used_idx: set[int] | None = None) -> lis
         # other context (first payload byte, where the context is carried there)
         if j and KINDS[c["kind"]]["code"] in ("30C9", "2309", "000A", "0004") and parts[-1][:2] == i:
             out.append(" ".join(parts[:-1] + [j + parts[-1][2:]]))
+        if j and KINDS[c["kind"]]["code"] == "0418" and parts[-1][4:6] == i:  # the fault-log index is the context
+            out.append(" ".join(parts[:-1] + [parts[-1][:4] + j + parts[-1][6:]]))
         # other responding / addressed device (for an I/RP the header names the sender, so the
         # addressee is not one of the statement's distinguishing fields)
         if f[:2] in ("RQ", " W") or f is fr["reply"]:
@@ -759,6 +786,28 @@ def gen_burst(rng, n: int) -> dict[str, Any]:
                 "script": [{"echo": rng.choice((None, ["abs", 0.004], ["abs", 0.004], ["T", 0.0])), "reply": rng.choice((None, ["abs", 0.02]))}],
             }
         )
+    if n >= 30 and rng.random() < 0.6:
+        # the first command stays in flight (echo lost on every attempt: 7.5 s), the buffer fills, queued callers
+        # with short timeouts give up, and further callers arrive while the buffer still holds those dead entries
+        callers[0].update({"at": 0.0, "max_retries": 3, "timeout": 20, "script": [{"echo": None, "reply": None}]})
+        for c in callers[1:]:
+            c["at"] = 0.0 if rng.random() < 0.9 else 0.001
+            c["timeout"] = rng.choice((0.3, 1, 1, 3.5, 20, 20))
+        for j in range(rng.choice((1, 2, 4))):
+            i = len(callers)
+            callers.append(
+                {
+                    "kind": rng.choice(("RQ000A", "RQ0004")),
+                    "idx": i % 12,
+                    "dev": f"01:{150000 + i:06d}",
+                    "at": rng.choice((0.4, 1.2, 2.0, 4.0, 6.0)) + j * 0.01,
+                    "priority": rng.choice((-4, -2, 0, 2, 4)),
+                    "wait_for_reply": None,
+                    "max_retries": 1,
+                    "timeout": 20,
+                    "script": [{"echo": ["abs", 0.004], "reply": ["abs", 0.02]}],
+                }
+            )
     return {"disable_qos": rng.choice((None, False)), "callers": callers, "quiet": 30.0, "horizon": 120.0}
 
 
